@@ -74,10 +74,20 @@ Definition trig_rec_hl (ev : env) (s : st) (o : op) : bool :=
 
 (* k = 4 (sticky): an earlier operation detached a name from its link record but may have kept the
    record's chunks in the name's new plain entry — a rename of an entry whose blob carries a link id
-   (moveSelfEntry copies the chunks, not the id), or an entry without id written over such a name (the
-   two C21 findings).  From then on chunks can be shared outside any link record *)
+   (moveSelfEntry copies the chunks, not the id: the C21 finding), or an entry without id written over
+   such a name (the counter is decremented since the repair, but the new plain entry may keep chunks
+   of the record).  From then on chunks can be shared outside any link record *)
+Definition overwrites_linked (s : st) (o : op) : bool :=
+  match o with
+  | Create p e _ | Update p e => (h_hl e =? 0) && blob_linked s p
+  | Rename oldp newp =>
+      negb (path_eqb oldp newp) &&
+      (blob_linked s newp ||
+       existsb (fun c => blob_linked s (child newp (fst c))) (list_children s oldp))
+  | _ => false
+  end.
 Definition renames_linked (ev : env) (s : st) (o : op) : bool :=
-  trig_rename_linked s o || trig_overwrite_linked s o.
+  trig_rename_linked s o || overwrites_linked s o.
 
 Definition classify (ev : env) (detached : bool) (s : st) (o : op) : option N :=
   if trig_local ev s o then (if via_update o then Some 3 else Some 0)
